@@ -760,3 +760,35 @@ CROSS = register(Stream(
           "regenerated rows) must clear exactly the same numbers; prime classes 7..31, segment sizes incl. non powers of two "
           "for Small/Medium, starts at 0, p^2, p^2-31 and up to 1e18; non-trivial = at least one bit cleared; distinct by the full line"),
     nontrivial=lambda o, obs: "n=0 " not in obs))
+
+
+def gen_presieve(tier, r):
+    q = tier == "quick"
+    ops = []
+    sizes = [5957, 6479, 6409, 6683, 6751, 7097, 7897, 8201, 8357, 8777, 9017, 8249, 8611, 8881, 9167, 9797]
+    for low in [0, 30, 60, 90, 120, 150, 180, 210, 240]:
+        ops.append(("first-bytes", f"presieve {low} {r.choice([8, 9, 16, 40])}"))
+    # every table is read around its wrap-around point and at every position (thorough)
+    for sz in sizes:
+        for _ in range(2 if q else 12):
+            k = r.randrange(0, 10**6)
+            low = 30 * (sz * k + sz - r.randrange(1, 50))
+            ops.append(("table-wrap", f"presieve {low} {r.choice([64, 200])}"))
+    n_full = 1 if q else 16
+    for sz in r.sample(sizes, n_full):
+        ops.append(("full-period", f"presieve {30 * sz * r.randrange(1, 1000)} {sz + 8}"))
+    for _ in range(20 if q else 300):
+        low = 30 * r.randrange(0, 2**r.choice([12, 24, 40, 58]))
+        ops.append(("random", f"presieve {low} {r.choice([8, 64, 512, 3000])}"))
+    for low in [UMAX // 30 * 30 - 30 * 100, (UMAX - 40000) // 30 * 30]:
+        ops.append(("top", f"presieve {low} 64"))
+    return ops
+
+PRESIEVE = register(Stream(
+    "presieve", gen_presieve,
+    rule=("cases = PreSieve::preSieve(sieve, segmentLow) on the real code (AVX512 / SSE2 / portable AND loops depending on the "
+          "build variant) for segment starts at the first bytes (primes <= 163 restored), around the wrap-around point of each "
+          "of the 16 tables, over a full period of a table, random positions up to 2^63 and the top of the range; every bit is "
+          "checked against 'no prime in 7..163 properly divides the number' in the harness and the bytes against the Lean model "
+          "preSieveFinal over the regenerated tables; non-trivial = every case; distinct by the operation"),
+    nontrivial=None))
